@@ -44,6 +44,11 @@ Deepening round (C15_helpers, second half) — the functions that carry the data
                          walk (loop / for_each closure; every selected entry reaches the push, nothing else touches the Vec,
                          no success before the pass is over); the value kept per entry is the entry's own path;
                          workspace root by `cargo locate-project --workspace` in the invocation directory
+Robustness round 4: every obligation above is read on normal forms (C15_helpers: path_nf / site_fix / deep_nf / reopen /
+fails_otherwise / *_tolerance / membership / ok_gates / option_default / filled_form / fold_accumulator / binaries_fields), so
+that layout structs, push-built paths, local closures, try_for_each / try_fold loops, collected intermediate Vecs, `or_else` /
+match-expression error handling, gate helpers, renamed parameters / fields and an inlined assemble_buildpack_directory are
+the same program; R5 also counts io::Write on a Stdout handle as stdout output.
 Not decided: cargo's build, contents of binaries, interrupted-run states beyond the wipe, the constant written as the
 libcnb.rs package.toml.
 """
@@ -69,7 +74,7 @@ EXISTS = ('std::path::Path::exists', 'std::path::Path::try_exists', 'std::path::
 
 
 def run(ctx, rep):
-    prog, sl = ctx.prog, ctx.slicer
+    prog, sl = ctx.prog, H.subtype_slicer(ctx.slicer)
     for r, d in (('R1', 'destination wiped (error not ignored) before it is re-created and filled'), ('R2', 'packaged directory layout table'),
                  ('R3', 'additional-binary directory constants agree between packager and libcnb\'s runtime macro'),
                  ('R4', 'main / additional binary selection'), ('R5', 'stdout carries exactly the selected buildpacks\' output directories')):
@@ -82,7 +87,14 @@ def run(ctx, rep):
     # ---- R1 ------------------------------------------------------------------------------------------
     # stated on the effects of `execute` with the packaging call and the id -> dir map insert as vocabulary: the wipe and
     # the re-creation may live in `execute` or in private helpers, only their destination, order and error fate matter
-    E1 = Effects(prog, sl, vocab={PKG: ('PACKAGE', 4), MAP_INSERT: ('RECORD', 2)})
+    # (stdout is written by println! / print!, or through io::Write on a Stdout / StdoutLock handle: R5)
+    out_writes = [(g, c) for g in prog.fns.values() if g.crate == 'cargo_libcnb' for c in g.calls
+                  if not c.indirect and (c.decl or c.name or '').startswith('std::io::Write::') and c.args and H.op_place(c.args[0]) and
+                  'std::io::Stdout' in str(g.local_ty(H.op_place(c.args[0])[0]))]
+    vocab1 = {PKG: ('PACKAGE', 4), MAP_INSERT: ('RECORD', 2)}
+    for g, c in out_writes:
+        vocab1.setdefault(c.name, ('OUT_WRITE', 0))
+    E1 = Effects(prog, sl, vocab=vocab1)
     may1 = H.expand(E1, ex, 'may')
     pk = [e for e in may1 if e.kind == 'PACKAGE']
     dest = None
@@ -99,11 +111,14 @@ def run(ctx, rep):
             r0 = rm[0]
             # the removal may be conditional on the destination existing (and on nothing else): per-iteration boolean
             # decisions at every level of its call chain
-            gds = [(lv, cd, views) for lv, cd, views, _ in H.guards_by_level(E1, r0) if cd.kind == 'bool' and (lv > 0 or ex.in_loop(cd.sw_bb))]
+            # (a decision around the creation site of a closure that *is* the loop body — `order.iter().try_for_each(|n| ..)`
+            # — is taken once, in the function that creates it: it counts when it lies in a loop of that function)
+            rlv = H.levels(r0)
+            per_iter = lambda lv, cd: (lv > 0 or ex.in_loop(cd.sw_bb)) if cd.fn is rlv[lv][0].fn else cd.fn.in_loop(cd.sw_bb)
+            gds = [(lv, cd, views) for lv, cd, views, _ in H.guards_by_level(E1, r0) if cd.kind == 'bool' and per_iter(lv, cd)]
             only_exists = all(any(oc is True and strip(v)[0] == 'call' and strip(v)[1] in EXISTS and strip(strip(v)[2][0]) == dest for v, oc in views)
                               for lv, cd, views in gds)
             anchors = {}
-            rlv = H.levels(r0)
             for lv, cd, views in gds:
                 if cd.fn is rlv[lv][0].fn:
                     anchors.setdefault(lv, cd.sw_bb)
@@ -119,7 +134,9 @@ def run(ctx, rep):
                       'left by an earlier run) packaging continues over stale content and exits 0' % '; '.join(x.detail or x.kind for x in fates),
                       {'fates': [repr(x) for x in fates]})
             # when the error is matched rather than `?`-propagated: only ErrorKind::NotFound may fall through
-            matched = [x for x in flow if x[4] == 'ok' and any(ft.kind == 'matched' for ft in x[3])]
+            # ... also when it is handed to a recovering combinator (`.or_else(..)`): only a closure that succeeds for
+            # NotFound alone is a tolerance, anything else swallows the failure
+            matched = [x for x in flow if x[4] == 'ok' and (any(ft.kind == 'matched' for ft in x[3]) or H.recovers(E1, x[1], x[2]))]
             if not bad and matched and mk:
                 good = True
                 for lv, f, c, fts, vd in matched:
@@ -130,48 +147,77 @@ def run(ctx, rep):
                         if H.diverge(r0, nxt) == lv and H.levels(nxt)[lv][0].fn is f:
                             targets = [H.levels(nxt)[lv][0].bb]
                             break
-                    good = good and H.tolerates_only_not_found(E1, f, c, targets)
+                    good = good and (H.tolerates_only_not_found(E1, f, c, targets) or H.combinator_tolerance(E1, f, c, targets) or H.rebuilt_tolerance(E1, f, c, targets))
                 rep.check(good, 'R1', 'wipe-tolerance', r0.where(), 'a failed wipe is tolerated only for ErrorKind::NotFound',
                           'a failed wipe can fall through to packaging for errors other than NotFound')
         # destination = resolver(node.buildpack_id) and is what gets recorded / printed
         rec = [e for e in may1 if e.kind == 'RECORD']
-        okm = any(strip(e.path) == dest for e in rec)
+        okm = any(H.same_through_helpers(sl, e.path, dest) for e in rec)
         rep.check(okm, 'R1', 'recorded', p.where(), 'the packaged directory recorded for the id is the destination that was filled', 'the id -> packaged dir map does not record the destination')
     # ---- R7 ------------------------------------------------------------------------------------------
     rep.rule('R7', 'every node of the build order is wiped and packaged, every additional binary is copied, dependencies see the recorded directories')
     if len(pk) == 1:
         p = pk[0]
         vd, why, it = H.every_element(E1, p)
-        base_ok = it is not None and it.base is not None and any(x[0] == 'call' and x[1] == DEPS for x in walk(it.base))
+        # (the build order may reach the loop through a helper / local closure, also inside a tuple: H.deep_nf)
+        base_ok = it is not None and it.base is not None and (any(x[0] == 'call' and x[1] == DEPS for x in walk(it.base)) or
+                                                              any(x[0] == 'call' and x[1] == DEPS for x in walk(H.deep_nf(sl, it.base))))
         if vd == 'unproven' or (vd == 'ok' and not base_ok):
             rep.unproven('R7', 'every-node', p.where(), 'cannot show that every node of the build order is packaged: %s' % (why or 'the loop does not range over get_dependencies(..)'))
         else:
             rep.check(vd == 'ok', 'R7', 'every-node', p.where(), 'the packaging call runs for every node of get_dependencies(graph, selected)',
                       'not every node of the build order is packaged into a wiped directory: %s' % why)
-        rec = [e for e in may1 if e.kind == 'RECORD' and dest is not None and strip(e.path) == dest]
+        rec = [e for e in may1 if e.kind == 'RECORD' and dest is not None and H.same_through_helpers(sl, e.path, dest)]
         ok = len(rec) == 1 and len(p.args or ()) > 5 and H.same_object(sl, strip(p.args[5]), strip(rec[0].args[0])) and H.every_element(E1, rec[0])[0] == 'ok' \
             and H.always_before(E1, p, rec[0])
         rep.check(ok, 'R7', 'dependencies-map', p.where(), 'the id -> directory map handed to the packaging call is the one every packaged node is recorded in (once, after it was packaged)',
                   'the map of already packaged buildpacks handed to package_buildpack is not the map the destinations are recorded in (once per node, after packaging)')
     # ---- R2 ------------------------------------------------------------------------------------------
-    af = prog.fn(AS)
+    # stated on assemble_buildpack_directory (destination = its first parameter, sources = its own parameters) — or, when
+    # that private function has been inlined into its caller, on package_libcnb_buildpack itself (destination = its
+    # `destination` parameter, sources in its terms: <buildpack dir>/buildpack.toml, the fields of what
+    # build_buildpack_binaries handed back)
+    pl = prog.fn('libcnb_package::package::package_libcnb_buildpack')
+    try:
+        af = prog.fn(AS)        # (also under its baseline name when it was renamed / moved)
+    except Exception:
+        af = None
+    inlined = af is None
+    if inlined:
+        af = pl
     rep.analysed(af)
-    root = L.param_pred(af, 0)
+    root = L.param_pred(af, 4 if inlined else 0)
     table = {}
-    for e in E.expand(af, 'may'):
+    # paths / sources are read in normal form: values reached through private helpers, private layout structs or tuples
+    # (`Layout::new(dest).bin_dir`) are what those return, in this function's terms
+    nf = lambda v: H.peel_path(H.path_nf(sl, v)) if v is not None else None
+    comps = lambda v, is_root: H.comps_nf(sl, v, is_root)
+    # a push-built path buffer is read as of the point where it is used for the effect (H.site_fix)
+    fixed = {}
+
+    def at_site(e, v):
+        k = (id(e), id(v))
+        if k not in fixed:
+            fixed[k] = H.site_fix(E, e, v)
+        return fixed[k]
+    for e in H.expand(E, af, 'may'):
         if e.kind not in MUTATING:
             continue
-        cs = L.comps(e.path, root)
+        pv = at_site(e, e.path)
+        if pv is None:
+            rep.unproven('R2', 'layout/path-buffer', e.where(), 'a path buffer built by push is read at a point where the pushes that have happened cannot be ordered')
+            continue
+        cs = comps(pv, root)
         key = '?' if cs is None else '/'.join('<name>' if not isinstance(x, str) else x for x in cs)
         src = None
         if e.call.is_('std::fs::copy'):
-            src = vstr(strip(e.args[0]))
+            src = vstr(strip(nf(e.args[0])))
         elif e.call.is_('std::os::unix::fs::symlink'):
-            src = 'symlink->' + vstr(strip(e.args[0]))
+            src = 'symlink->' + vstr(strip(nf(e.args[0])))
         table[key or '.'] = (e.kind, src, e)
     must = set()
-    for e in E.expand(af, 'must'):
-        cs = L.comps(e.path, root) if e.kind in MUTATING else None
+    for e in H.expand(E, af, 'must'):
+        cs = comps(at_site(e, e.path), root) if e.kind in MUTATING else None
         if cs is not None and all(isinstance(x, str) for x in cs):
             must.add('/'.join(cs) or '.')
     rep.extra['layout'] = {k: [v[0], v[1]] for k, v in table.items()}
@@ -181,9 +227,42 @@ def run(ctx, rep):
         '.libcnb-cargo/additional-bin': ('MKDIR', None),
         '.libcnb-cargo/additional-bin/<name>': ('WRITE', 'unwrap(Iterator::next(buildpack_binaries.additional_target_binary_paths)).1'),
     }
+    # sources are recognised by what they are (which parameter / which field by type), not by how they are named
+    bty, f_main, f_add = H.binaries_fields(prog, prog.fn(H.BBB))
+    bin_idx = [i for i, t in enumerate(af.args) if bty in str(t)]
+    desc_idx = [i for i in range(1, len(af.args)) if i not in bin_idx]
+    is_par = lambda v, idxs: v[0] == 'param' and v[1] == af.path and v[2] in idxs
+
+    def src_is(g_, src_):
+        if src_ is None or src_.startswith('symlink->'):
+            return g_[1] == src_
+        sv = nf(g_[2].args[0])
+        if src_ == 'buildpack_descriptor_path':
+            return len(desc_idx) == 1 and is_par(sv, desc_idx)
+        if src_.startswith('unwrap('):
+            coll, proj = L.loop_element(sv)
+            coll = H.peel_path(coll) if coll is not None else None
+            return coll is not None and proj == ('1',) and coll[0] == 'field' and coll[2] == f_add and is_par(H.peel_path(coll[1]), bin_idx)
+        return sv[0] == 'field' and sv[2] == f_main and is_par(H.peel_path(sv[1]), bin_idx)
+    if inlined:
+        # the same sources in package_libcnb_buildpack's terms
+        binaries = lambda v: any(x[0] == 'call' and x[1] == H.BBB for x in walk(v))
+
+        def src_is(g_, src_):
+            if src_ is None or src_.startswith('symlink->'):
+                return g_[1] == src_
+            sv = H.peel_path(H.path_nf(sl, g_[2].args[0], keep=(H.BBB,)))      # what build_buildpack_binaries hands back stays a name
+            if src_ == 'buildpack_descriptor_path':
+                return comps(g_[2].args[0], L.param_pred(pl, 0)) == ('buildpack.toml',)
+            if src_.startswith('unwrap('):
+                coll, proj = L.loop_element(sv)
+                coll = strip(coll) if coll is not None else None
+                return coll is not None and proj == ('1',) and coll[0] == 'field' and coll[2] == f_add and binaries(coll[1])
+            return sv[0] == 'field' and sv[2] == f_main and binaries(sv[1])
+        want['package.toml'] = ('WRITE', None)
     for k, (kind, src) in want.items():
         g = table.get(k)
-        ok = g is not None and g[0] == kind and g[1] == src
+        ok = g is not None and g[0] == kind and src_is(g, src)
         rep.check(ok, 'R2', 'layout/' + k, g[2].where() if g else w(af), '%s %s%s' % (kind, k, ' <- ' + src if src else ''),
                   'layout entry %s: expected %s <- %s, found %s' % (k, kind, src, g and (g[0], g[1])))
     for k in table:
@@ -194,37 +273,39 @@ def run(ctx, rep):
     # additional binaries: name of the file = key of the same map element
     g = table.get('.libcnb-cargo/additional-bin/<name>')
     if g:
-        cs = L.comps(g[2].path, root)
+        cs = comps(at_site(g[2], g[2].path), root)
         c1, p1 = L.loop_element(cs[-1])
-        c2, p2 = L.loop_element(g[2].args[0])
+        c2, p2 = L.loop_element(nf(g[2].args[0]))
         rep.check(c1 is not None and c1 == c2 and p1 == ('0',) and p2 == ('1',), 'R2', 'additional/name', g[2].where(), 'each additional binary copied to <dir>/<its target name>',
                   'additional binary file name is not the target name of the copied binary')
         vd, why, it = H.every_element(E, g[2])
         if vd == 'unproven':
             rep.unproven('R7', 'every-additional-binary', g[2].where(), 'cannot show that every additional binary is copied: %s' % why)
         else:
-            rep.check(vd == 'ok' and it is not None and H.same(it.base, c1), 'R7', 'every-additional-binary', g[2].where(), 'every entry of additional_target_binary_paths is copied',
+            rep.check(vd == 'ok' and it is not None and (H.same(it.base, c1) or H.same(nf(it.base), c1)), 'R7', 'every-additional-binary', g[2].where(), 'every entry of additional_target_binary_paths is copied',
                       'not every additional binary is copied: %s' % (why or 'the loop does not range over additional_target_binary_paths'))
     # package.toml / descriptor source / composite descriptor: on the effects of the two packaging functions (the writes may
     # sit in private helpers), with assemble_buildpack_directory as a vocabulary entry so that its call sites are enumerated
-    pl = prog.fn('libcnb_package::package::package_libcnb_buildpack')
     rep.analysed(pl)
     Ep = Effects(prog, sl, vocab={AS: ('ASSEMBLE', 0)})
     mayp = H.expand(Ep, pl, 'may')
     reported = lambda e: all(x[4] == 'ok' for x in H.error_flow(prog, e))
     wr = [e for e in mayp if e.call is not None and e.call.is_('std::fs::write')]
-    ok = len(wr) == 1 and L.comps(wr[0].path, L.param_pred(pl, 4)) == ('package.toml',) and reported(wr[0])
+    ok = len(wr) == 1 and comps(wr[0].path, L.param_pred(pl, 4)) == ('package.toml',) and reported(wr[0])
     rep.check(ok, 'R2', 'layout/package.toml', w(pl), 'package.toml written into the destination, error propagated', 'package.toml is not written to <destination>/package.toml')
     asm = [e for e in mayp if e.kind == 'ASSEMBLE']
     ok = len(asm) == 1
-    if ok:
-        a = [strip(x) for x in asm[0].args]
-        ok = a[0][0] == 'param' and a[0][1] == pl.path and a[0][2] == 4 and L.comps(a[1], L.param_pred(pl, 0)) == ('buildpack.toml',)
+    if inlined:
+        g = table.get('buildpack.toml')
+        ok = g is not None and src_is(g, 'buildpack_descriptor_path')
+    elif ok:
+        a = [strip(nf(x)) for x in asm[0].args]
+        ok = a[0][0] == 'param' and a[0][1] == pl.path and a[0][2] == 4 and len(desc_idx) == 1 and comps(asm[0].args[desc_idx[0]], L.param_pred(pl, 0)) == ('buildpack.toml',)
     rep.check(ok, 'R2', 'layout/descriptor-source', w(pl), 'buildpack.toml copied from <buildpack dir>/buildpack.toml into the destination', 'descriptor source / destination arguments changed')
     pc = prog.fn('libcnb_package::package::package_composite_buildpack')
     cp = [e for e in H.expand(E, pc, 'may') if e.call is not None and e.call.is_('std::fs::copy')]
-    ok = len(cp) == 1 and L.comps(cp[0].args[0], L.param_pred(pc, 0)) == ('buildpack.toml',) and \
-        L.comps(cp[0].path, L.param_pred(pc, 1)) == ('buildpack.toml',) and reported(cp[0])
+    ok = len(cp) == 1 and comps(cp[0].args[0], L.param_pred(pc, 0)) == ('buildpack.toml',) and \
+        comps(cp[0].path, L.param_pred(pc, 1)) == ('buildpack.toml',) and reported(cp[0])
     rep.check(ok, 'R2', 'layout/composite-descriptor', w(pc), 'composite: buildpack.toml copied byte for byte', 'composite buildpack.toml is not a plain copy')
     # ---- R3 ------------------------------------------------------------------------------------------
     ms = [m for m in prog.macros if m['name'] == 'additional_buildpack_binary_path' and m['crate'] == 'libcnb']
@@ -233,7 +314,7 @@ def run(ctx, rep):
     else:
         lits = re.findall(r'\.\s*join\s*\(\s*"([^"]*)"\s*\)', ms[0]['body'])
         g = table.get('.libcnb-cargo/additional-bin')
-        writer = list(L.comps(g[2].path, root)) if g else None
+        writer = list(comps(at_site(g[2], g[2].path), root)) if g else None
         rep.check(writer == lits[:2] and len(lits) >= 2, 'R3', 'dirs', '%s:%s' % (ms[0]['file'], ms[0]['line']), 'packager writes %s, runtime macro reads %s' % (writer, lits[:2]),
                   'packager places additional binaries in %s but libcnb looks them up in %s' % (writer, lits))
     # ---- R4 ------------------------------------------------------------------------------------------
@@ -243,7 +324,7 @@ def run(ctx, rep):
     rep.analysed(bb)
     E4 = Effects(prog, sl, vocab={BUILD: ('BUILD', 5), SET_INSERT: ('PUT', 1)})
     may4 = H.expand(E4, bb, 'may')
-    builds = [(e, H.selection(E4, e)) for e in may4 if e.kind == 'BUILD']
+    builds = [(e, H.selection_open(E4, e)) for e in may4 if e.kind == 'BUILD']
     # "the binary target names" / "the buildpack's own target" are the values provided by the functions R10 decides on
     # (one function each, or one function returning both: H.find_roles), applied to this function's cargo metadata
     roles = H.find_roles(prog, sl)
@@ -256,12 +337,16 @@ def run(ctx, rep):
     if ok:
         e = main_build[0][0]
         t_main = strip(e.path)
-        cds = [(v, oc) for cd, views, _ in guards_of(E4, e) if cd.kind == 'bool' for v, oc in views
-               if strip(v)[0] == 'call' and strip(v)[1].endswith('::contains') and len(strip(v)[2]) == 2]
-        ok = bool(cds) and all(oc is True for v, oc in cds) and any(is_names_v(strip(v)[2][0]) and is_main_v(strip(v)[2][1]) for v, oc in cds)
+        # membership decisions it runs under (`names.contains(&t)` / `names.iter().any(|n| n == &t)`)
+        cds = [m for cd, views, _ in guards_of(E4, e) if cd.kind == 'bool' for v, oc in views for m in [H.membership(sl, v, oc)] if m is not None]
+        # ... or that a gate call before it guarantees (`ensure_target_exists(&names, &t)?`)
+        top = H.levels(e)[0][0]
+        cds += [m for views in H.ok_gates(E4, top.fn, top.bb) for v, oc in views for m in [H.membership(sl, v, oc)] if m is not None]
+        ok = bool(cds) and all(oc is True for _, _, oc in cds) and any(is_names_v(strip(coll)) and is_main_v(strip(item)) for coll, item, oc in cds)
         ok = ok and is_main_v(t_main)
     rep.check(ok, 'R4', 'main', w(bb), 'main binary = determined target, built only if it is among the binary targets', 'main binary selection changed')
-    errs = [s for g in [bb] + prog.closures_of(bb) for b in g.blocks for s in b['s'] if s[0] == '=' and s[2]['r'] == 'agg' and s[2].get('variant') == 'MissingBuildpackTarget']
+    errs = [s for g in [bb] + prog.closures_of(bb) + [h for h in prog.reach([bb]).values() if h.crate == bb.crate] for b in g.blocks for s in b['s']
+            if s[0] == '=' and s[2]['r'] == 'agg' and s[2].get('variant') == 'MissingBuildpackTarget']
     rep.check(bool(errs), 'R4', 'main/missing-error', w(bb), 'missing main target is an error', 'no MissingBuildpackTarget error')
     add_build = [(e, s) for e, s in builds if s.iterations]
     ok = len(add_build) == 1 and t_main is not None
@@ -275,19 +360,19 @@ def run(ctx, rep):
         ok = len(s.iterations) == 1 and preds is not None and len(preds) == 1 and it.elem is not None and H.same(tv, it.elem) and is_names_v(it.base)
         if ok:
             ok = False
-            for v, oc in H.pred_views(preds[0]):
+            for v, oc in H.open_views(sl, preds[0]):
                 v = strip(v)
                 if v[0] == 'call' and len(v[2]) == 2 and ((v[1].endswith('::ne') and oc is True) or (v[1].endswith('::eq') and oc is False)):
                     a, b = v[2]
                     ok = ok or (H.same(a, it.elem) and H.same(b, t_main)) or (H.same(b, it.elem) and H.same(a, t_main))
         # keyed by target name: entries put into the map that is returned as `additional_target_binary_paths`
-        amap = [fv for x in walk(sl.local(bb, 0)) if x[0] == 'agg' and (x[1] or '').endswith('BuildpackBinaries') for fn_, fv in x[3] if fn_ == 'additional_target_binary_paths']
+        amap = [fv for x in walk(sl.inline_deep(sl.local(bb, 0), keep=tuple(H.KEEP) + roles.keep())) if x[0] == 'agg' and (x[1] or '').endswith(bty.rsplit('::', 1)[-1]) for fn_, fv in x[3] if fn_ == f_add]
         keys = []
         if len(amap) == 1:
             av = strip(amap[0])
             for pe in may4:
                 if pe.kind == 'PUT' and H.same(pe.args[0], av):
-                    ps = H.selection(E4, pe)
+                    ps = H.selection_open(E4, pe)
                     keys.append(strip(pe.path) if (len(ps.iterations) == 1 and H.same(ps.iterations[0].recv, it.recv)) else None)
             if not keys and any(x[0] == 'call' and x[1] in H.iters.COLLECTING for x in walk(av)):
                 # built by collecting (key, value) pairs
@@ -297,33 +382,35 @@ def run(ctx, rep):
         ok = ok and len(keys) == 1 and keys[0] is not None and H.same(keys[0], tv)
     rep.check(ok, 'R4', 'additional', w(bb), 'additional binaries = all binary targets != main, keyed by their target name', 'additional binary selection changed')
     # ---- R5 ------------------------------------------------------------------------------------------
-    prints = [(g, c) for g in prog.fns.values() if g.crate == 'cargo_libcnb' for c in g.calls if c.is_('std::io::_print')]
+    prints = [(g, c) for g in prog.fns.values() if g.crate == 'cargo_libcnb' for c in g.calls if c.is_('std::io::_print')] + out_writes
     rep.check(len(prints) == 1, 'R5', 'count', w(ex), 'exactly one stdout print in cargo-libcnb', 'stdout is written at %s' % [c.where() for g, c in prints])
     if len(prints) == 1:
         g, c = prints[0]
         # the print as an effect of `execute`: it runs once per entry of the id -> packaged dir map (a for loop or a
         # for_each closure), under exactly one per-entry condition: some selected root node has that id
-        pe = [e for e in may1 if e.kind == 'PRINT_OUT']
+        pe = [e for e in may1 if e.kind == 'PRINT_OUT' or (e.kind == 'OUT_WRITE' and any(e.call is oc_ for _, oc_ in out_writes))]
         ok = len(pe) == 1 and pe[0].call is c
         printed_ok = False
         if ok:
             e = pe[0]
-            s = H.selection(E1, e)
+            s = H.selection_open(E1, e)
             preds = H.predicates(s)
-            maps = [strip(r.args[0]) for r in may1 if r.kind == 'RECORD' and dest is not None and strip(r.path) == dest]
+            maps = [strip(r.args[0]) for r in may1 if r.kind == 'RECORD' and dest is not None and H.same_through_helpers(sl, r.path, dest)]
             roots = [x[2][1] for x in L.walk_deep(sl, dest) if x[0] == 'call' and x[1] == DEPS and len(x[2]) > 1] if dest is not None else []
+            if dest is not None and not roots:
+                roots = [x[2][1] for x in walk(H.deep_nf(sl, dest)) if x[0] == 'call' and x[1] == DEPS and len(x[2]) > 1]
             ok = len(s.iterations) == 1 and preds is not None and len(preds) == 1 and len(maps) == 1 and bool(roots)
             if ok:
                 it = s.iterations[0]
                 # the iterated map is the one the destinations were recorded in, also when a private helper fills and returns it
-                src_ok = H.same_through_helpers(sl, it.base, maps[0])
+                src_ok = H.same_collection(sl, it.base, maps[0])
                 sel_ok = False
                 id_test = []
-                for v, oc in H.pred_views(preds[0]):
+                for v, oc in H.open_views(sl, preds[0]):
                     v = strip(v)
                     if v[0] == 'call' and v[1].endswith('::any') and oc is True and v[2]:
                         over = H.decompose(sl, v[2][0])
-                        this = not over[1] and not over[2] and any(H.same(over[0], r) for r in roots)
+                        this = not over[1] and not over[2] and any(H.same(over[0], r) or H.same(H.deep_nf(sl, over[0]), H.deep_nf(sl, r)) for r in roots)
                         sel_ok = sel_ok or this
                         if this and len(v[2]) == 2:
                             # ... and "has this id" is: root.buildpack_id == <id of the entry>
@@ -338,7 +425,7 @@ def run(ctx, rep):
                                 if r is not None and r[0] == 'call' and len(r[2]) == 2 and ((r[1].endswith('::eq') and roc is True) or (r[1].endswith('::ne') and roc is False)):
                                     a, b = H.peel_path(r[2][0]), H.peel_path(r[2][1])
                                     is_root_id = lambda x: x[0] == 'field' and x[2] == 'buildpack_id' and H.same(x[1], el)
-                                    is_entry_id = lambda x: x[0] == 'field' and x[2] == '0' and it.elem is not None and H.same(x[1], it.elem)
+                                    is_entry_id = lambda x: x[0] == 'field' and x[2] == '0' and it.elem is not None and H.same(x[1], H.entry_of(it))
                                     id_test.append((is_root_id(a) and is_entry_id(b)) or (is_root_id(b) and is_entry_id(a)))
                                 else:
                                     id_test.append(False)
@@ -346,9 +433,9 @@ def run(ctx, rep):
                 # the printed value is the map value (packaged dir) of that entry
                 for av in e.args or ():
                     for x in walk(av):
-                        if x[0] == 'call' and x[1].endswith('to_string_lossy') and x[2]:
+                        if x[0] == 'call' and x[1].endswith(('to_string_lossy', 'std::path::Path::display', 'std::path::PathBuf::display')) and x[2]:
                             coll, proj = L.loop_element(x[2][0])
-                            printed_ok = printed_ok or (coll is not None and H.same_through_helpers(sl, coll, maps[0]) and proj == ('1',))
+                            printed_ok = printed_ok or (coll is not None and H.same_collection(sl, coll, maps[0]) and proj == ('1',))
         rep.check(ok and printed_ok, 'R5', 'selection', c.where(), 'prints the packaged directory of each selected root buildpack',
                   'the stdout print is not the for_each over the packaged dirs filtered by the selected root nodes')
         if ok:
@@ -372,6 +459,18 @@ def run(ctx, rep):
     WR = 'libcnb_package::find_cargo_workspace_root_dir'
     E6 = Effects(prog, sl, vocab={AP: ('ABSOLUTIZE', 0)})
     is_pd = lambda v: any(x[0] == 'field' and x[2] == 'package_dir' for x in walk(v))
+
+    def is_pd_itself(v):
+        # (a copy / borrow / the payload of) args.package_dir itself — not a path derived from it
+        v = H.peel_path(v)
+        for _ in range(6):
+            if v[0] == 'call' and len(v[2]) == 1 and v[1].endswith(H._OPT_VIEW + ('::cloned', '::copied')):
+                v = H.peel_path(v[2][0])
+            elif v[0] == 'variant' and v[2] == 'Some':
+                v = H.peel_path(v[1])
+            else:
+                break
+        return v[0] == 'field' and v[2] == 'package_dir'
 
     def is_default(dflt):
         dflt = strip(dflt)
@@ -397,11 +496,18 @@ def run(ctx, rep):
         p0 = strip(pv)
         if arm is None:
             # default: args.package_dir.unwrap_or(<workspace root>.join("packaged")), the root found from the invocation directory
-            whole.append(p0[0] == 'call' and p0[1].endswith(('unwrap_or', 'unwrap_or_else')) and len(p0[2]) == 2 and is_pd(p0[2][0]) and is_default(p0[2][1]))
+            od = H.option_default(sl, p0)
+            arms = H.option_arms_of_value(E6, e, 0, is_pd) if od is None else None
+            if arms is not None:
+                # the value handed over is itself made by a decision on args.package_dir: one row per arm
+                norm_ = lambda x: strip(sl.inline_deep(x, keep=(WR,)))
+                whole.append(bool(arms['Some']) and bool(arms['None']) and all(is_pd_itself(norm_(x)) for x in arms['Some']) and all(is_default(norm_(x)) for x in arms['None']))
+            else:
+                whole.append(od is not None and is_pd_itself(od[0]) and is_default(od[1]))
         elif arm == 'None':
             none_arm.append(is_default(p0))
         elif arm == 'Some':
-            some_arm.append(is_pd(p0))
+            some_arm.append(is_pd_itself(p0))
         else:
             whole.append(False)
         detail = '; '.join(x for x in (detail if detail.startswith('path=') else '', 'path=%s base=%s%s' % (vstr(pv)[:90], vstr(bv)[:60], ' [package_dir is %s]' % arm if arm else '')) if x)
